@@ -14,7 +14,22 @@ import (
 	"time"
 )
 
+// extra z3 configurations used when an obligation is retried: different
+// random seeds counter the instability of quantifier instantiation.
+var retrySolvers = []solverSpec{
+	{"z3-5.1.0/seed1", func(file string, secs int) []string {
+		return []string{"z3-new", "-smt2", fmt.Sprintf("-T:%d", secs), "smt.random_seed=1", "sat.random_seed=1", file}
+	}},
+	{"z3-5.1.0/seed7", func(file string, secs int) []string {
+		return []string{"z3-new", "-smt2", fmt.Sprintf("-T:%d", secs), "smt.random_seed=7", "smt.arith.random_initial_value=true", file}
+	}},
+	{"z3-4.8.12/seed3", func(file string, secs int) []string {
+		return []string{"/usr/bin/z3", "-smt2", fmt.Sprintf("-T:%d", secs), "smt.random_seed=3", file}
+	}},
+}
+
 type SolveConfig struct {
+	Retry     bool
 	Timeout   time.Duration // per obligation
 	Dir       string        // scratch dir for query files
 	CacheDir  string
@@ -138,7 +153,7 @@ func solveOne(o *Obligation, cfg *SolveConfig) {
 	}
 	ctx, cancel := context.WithCancel(context.Background())
 	defer cancel()
-	ch := make(chan answer, len(solvers))
+	ch := make(chan answer, len(solvers)+len(retrySolvers))
 	start := time.Now()
 	launch := func(sp solverSpec) {
 		go func() {
@@ -169,6 +184,12 @@ func solveOne(o *Obligation, cfg *SolveConfig) {
 				launch(solvers[1])
 				launch(solvers[2])
 				pending = 2
+				if cfg.Retry {
+					for _, sp := range retrySolvers {
+						launch(sp)
+						pending++
+					}
+				}
 			}
 			if cfg.Double && len(definite) == 1 && !launchedAll && a.res == "unsat" {
 				launchedAll = true
@@ -182,6 +203,12 @@ func solveOne(o *Obligation, cfg *SolveConfig) {
 				launch(solvers[1])
 				launch(solvers[2])
 				pending += 2
+				if cfg.Retry {
+					for _, sp := range retrySolvers {
+						launch(sp)
+						pending++
+					}
+				}
 			}
 		}
 	}
@@ -237,24 +264,49 @@ func solveAll(obls []*Obligation, cfg *SolveConfig) {
 	if cfg.CacheDir != "" {
 		os.MkdirAll(cfg.CacheDir, 0o755)
 	}
-	var wg sync.WaitGroup
-	ch := make(chan *Obligation)
-	for i := 0; i < cfg.Workers; i++ {
-		wg.Add(1)
-		go func() {
-			defer wg.Done()
-			for o := range ch {
-				if o.Goal == "true" && o.Expect == "unsat" {
-					o.Status, o.Solver = "discharged", "trivial"
-					continue
+	run := func(list []*Obligation, workers int, fn func(o *Obligation)) {
+		var wg sync.WaitGroup
+		ch := make(chan *Obligation)
+		for i := 0; i < workers; i++ {
+			wg.Add(1)
+			go func() {
+				defer wg.Done()
+				for o := range ch {
+					fn(o)
 				}
-				solveOne(o, cfg)
-			}
-		}()
+			}()
+		}
+		for _, o := range list {
+			ch <- o
+		}
+		close(ch)
+		wg.Wait()
 	}
+	// phase 1: every obligation, racing solvers, full parallelism
+	run(obls, cfg.Workers, func(o *Obligation) {
+		if o.Goal == "true" && o.Expect == "unsat" {
+			o.Status, o.Solver = "discharged", "trivial"
+			return
+		}
+		solveOne(o, cfg)
+	})
+	// phase 2: obligations without a definite answer are retried with little
+	// load on the machine and a longer timeout, so that a slow but provable
+	// obligation is not reported because of CPU contention
+	var retry []*Obligation
 	for _, o := range obls {
-		ch <- o
+		if o.Expect == "unsat" && (o.Status == "unknown" || o.Status == "error") && o.Budget == 0 {
+			retry = append(retry, o)
+		}
 	}
-	close(ch)
-	wg.Wait()
+	if len(retry) > 0 && len(retry) <= 40 {
+		c2 := *cfg
+		c2.Timeout = cfg.Timeout * 2
+		c2.Retry = true
+		run(retry, 3, func(o *Obligation) {
+			first := o.Secs
+			solveOne(o, &c2)
+			o.Secs += first
+		})
+	}
 }
